@@ -5,7 +5,7 @@
    root r without parent, and changes no started flag. *)
 From Coq Require Import ZArith List Bool Arith Lia.
 From OP Require Import lib.Obs model.Interp model.InterpRun model.C14 proofs.Interp_inv proofs.C05_proofs proofs.Interp_fields
-     proofs.C02_proofs proofs.C14_proofs proofs.Interp_stack proofs.C02_order.
+     proofs.C02_proofs proofs.C14_proofs proofs.Interp_stack proofs.C02_order proofs.C04_order proofs.C05_order.
 Import ListNotations.
 Open Scope Z_scope.
 
@@ -55,5 +55,43 @@ Section InjRuns.
     intros H. rewrite (states_gstates ts H).
     eapply Forall_impl; [|exact (order_always_upd p WF nat ginject ginject_started ginject_len ginject_ints _)].
     intros s [_ Hs]. exact Hs.
+  Qed.
+
+  (* an injection changes only interrupt_registered of the root *)
+  Lemma ginject_st s r m : exists i, st (ginject s r) m = set_cond (st s m) (activated (st s m)) i (run_count (st s m)).
+  Proof.
+    assert (Id : st s m = set_cond (st s m) (activated (st s m)) (interrupt_registered (st s m)) (run_count (st s m))) by now destruct (st s m).
+    unfold ginject. destruct (n_parent (nd p r)); [eauto|]. unfold inject, register_interrupt.
+    destruct (in_ended_block p s r); [eauto|]. set (s1 := with_ints s _ _). rewrite st_set_ns.
+    destruct (Nat.eqb m r && Nat.ltb r (length (nodes s1))) eqn:C; [|eauto].
+    apply andb_prop in C as [C _]. apply Nat.eqb_eq in C. subst m. eauto.
+  Qed.
+  Lemma ginject_activated s r m : activated (st (ginject s r) m) = activated (st s m).
+  Proof. destruct (ginject_st s r m) as [i E]. now rewrite E. Qed.
+  Lemma ginject_lk s r m : lk (st (ginject s r) m) = lk (st s m).
+  Proof. destruct (ginject_st s r m) as [i E]. now rewrite E. Qed.
+
+  (* a Watch body -- of the method or of a snippet -- runs only after the Watch was activated *)
+  Theorem activation_with_injections ts : roots_ok_b ts = true ->
+    Forall (fun s => forall c q, n_parent (nd p c) = Some q -> n_kind (nd p q) = KWatch -> plain p c = true -> plain p q = true ->
+                                 started (st s c) = true -> activated (st s q) = true)
+           (C14_proofs.states p [FVisit 0] (init p) 0 ts).
+  Proof.
+    intros H. rewrite (states_gstates ts H).
+    eapply Forall_impl; [|exact (activation_always_upd p WF nat ginject ginject_activated ginject_started ginject_ints _)].
+    intros s Hs c q Pq K Pc Pl Sc. apply (Hs c q Pq Pc Sc Pl). unfold isW. now rewrite K.
+  Qed.
+  (* a Block body -- of the method or of a snippet -- runs only once the block took the lock *)
+  Theorem lock_with_injections ts : roots_ok_b ts = true ->
+    Forall (fun s => forall c q, n_parent (nd p c) = Some q -> n_kind (nd p q) = KBlock -> plain p c = true -> plain p q = true ->
+                                 started (st s c) = true ->
+                                 lock_acquired (st s q) = true \/ block_ended (st s q) = true \/ completed (st s q) = true)
+           (C14_proofs.states p [FVisit 0] (init p) 0 ts).
+  Proof.
+    intros H. rewrite (states_gstates ts H).
+    eapply Forall_impl; [|exact (lock_always_upd p WF nat ginject ginject_lk ginject_started ginject_len ginject_ints _)].
+    intros s [_ Hs] c q Pq K Pc Pl Sc.
+    assert (X : lk (st s q) = true) by (apply (Hs c q Pq Pc Sc Pl); unfold isB; now rewrite K).
+    unfold lk in X. apply orb_true_iff in X as [X|X]; [apply orb_true_iff in X as [X|X]|]; auto.
   Qed.
 End InjRuns.
